@@ -160,10 +160,13 @@ package filters
 //@     invariant 0 <= j && j <= numBytes && numBytes <= 4 && len(result) == entry(len(result)) + j && (forall k int :: {result[k]} 0 <= k && k < entry(len(result)) ==> result[k] == entry(result)[k]) && (forall k int :: {result[k]} entry(len(result)) <= k && k < len(result) ==> result[k] == be32byte(value, k - entry(len(result))))
 //@     decreases numBytes - j
 
-// zlib inflate is library code: assumed to be a deterministic function of the compressed bytes
-//@ func zlibDecompress results (out, err)
-//@   property C05
-//@   flags pure, trusted
+// zlib inflate is library code: assumed to be a deterministic function of the compressed bytes.  What IS checked of the
+// wrapper: it returns data only when the inflater reported no error at all (a truncated or corrupt stream - unexpected
+// EOF, checksum mismatch - is an error, never a shorter result) and only within the output limit
+//@ func zlibDecompress results (out, rerr)
+//@   property C05, C02
+//@   flags pure, nosafety
+//@   atreturn data_only_when_the_inflater_reported_no_error: !err && n <= maxInflatedSize
 
 // /Predictor 1 = none, 2 = TIFF predictor 2, 10..15 = PNG predictors (the per-row tag decides), anything else is an error
 //@ func applyPredictor results (out, err)
